@@ -18,7 +18,16 @@
 (*   {"e":"reset","cur":s,"files":{..}}      new history: `enable` has run, *)
 (*                                           a fresh loop is about to start *)
 (*   {"e":"seq","to":s,"files":{..}}         the enable handler's two calls *)
+(*   {"e":"install","rc":n}                  first half of an iteration on  *)
+(*                                           a new number under a version   *)
+(*                                           mismatch: `setup install` with *)
+(*                                           exit code n (4 = not started); *)
+(*                                           counts as ONE failed           *)
+(*                                           observation (HealthLoop!Install)*)
 (*   {"e":"poll","ok":0|1,"obs":o,"files":{..}}   one completed poll        *)
+(* A file that is not there is the digest by = "absent" (a run on which the *)
+(* handler's or the loop's document never reaches the status folder is an   *)
+(* observation, rejected by P_CurrentSeqFileIsLoopReport).                  *)
 (***************************************************************************)
 EXTENDS HealthLoop, Json, IOUtils, Sequences
 
@@ -29,20 +38,31 @@ tvars == <<allvars, l>>
 TInit == /\ Init
          /\ cur = "none" /\ file = [none |-> Absent] /\ agg = "none"
          /\ memo = [seq |-> "none", doc |-> Absent] /\ rep = Absent /\ polled = FALSE
+         /\ cached = "none" /\ mismatch = FALSE /\ code = 0
          /\ l = 1
 
 Reset == /\ l <= Len(Rec) /\ Rec[l].e = "reset"
          /\ st' = "transitioning" /\ fc' = 0 /\ sc' = 0 /\ gF' = 0 /\ gS' = 0 /\ last' = "none"
          /\ cur' = Rec[l].cur /\ file' = Rec[l].files /\ agg' = "none"
          /\ rep' = Absent /\ polled' = FALSE
+         /\ cached' = "none" /\ mismatch' = (Rec[l].mismatch = 1) /\ code' = 0
          /\ UNCHANGED memo
          /\ l' = l + 1
 
 SeqEv == /\ l <= Len(Rec) /\ Rec[l].e = "seq"
          /\ cur' = Rec[l].to /\ file' = Rec[l].files
          /\ polled' = FALSE
-         /\ UNCHANGED <<vars, agg, memo, rep>>
+         /\ UNCHANGED <<vars, agg, memo, rep, cached, mismatch, code>>
          /\ l' = l + 1
+
+\* only where the loop's own rule has one: a number it has not seen yet, under a version mismatch
+InstallEv == /\ l <= Len(Rec) /\ Rec[l].e = "install"
+             /\ InstallPending
+             /\ GhostStep(FALSE)
+             /\ code' = Rec[l].rc
+             /\ cached' = cur
+             /\ UNCHANGED <<st, fc, sc, cur, file, agg, memo, rep, polled, mismatch>>
+             /\ l' = l + 1
 
 PollEv == /\ l <= Len(Rec) /\ Rec[l].e = "poll"
           /\ GhostStep(Rec[l].ok = 1)
@@ -51,10 +71,11 @@ PollEv == /\ l <= Len(Rec) /\ Rec[l].e = "poll"
           /\ agg' = Rec[l].obs
           /\ rep' = LoopDoc(st', Rec[l].obs)
           /\ polled' = TRUE
-          /\ UNCHANGED <<fc, sc, cur, memo>>
+          /\ cached' = cur
+          /\ UNCHANGED <<fc, sc, cur, memo, mismatch, code>>
           /\ l' = l + 1
 
-TNext == Reset \/ SeqEv \/ PollEv
+TNext == Reset \/ SeqEv \/ InstallEv \/ PollEv
 TSpec == TInit /\ [][TNext]_tvars
 
 \* the file of the current sequence number is the loop's, of this poll
